@@ -122,6 +122,25 @@ Proof.
              (conj (leaf_to_pools_mono dgorgs gehalt dt f0 a0) (pools_after_sum dgorgs gehalt dt wumm shares nfos naos))).
 Qed.
 
+(* crop coefficient (crop.go:138-139, 293-307): the development progress used for the interpolation lies in [0,1] for a temperature sum
+   >= 0 and a positive stage requirement, the coefficient FKC that Evatra multiplies the reference ET with is a convex combination of two
+   tabulated values - it lies between them, so it is >= 0 for every crop file with non-negative kc entries (the hypothesis the C08
+   theorems on potential ET start from), before emergence as well as in every later stage *)
+Theorem C09_crop_coefficient : forall (b : bool) (kcini kp kk sum tsum : R),
+  0 <= sum -> 0 < tsum ->
+  0 <= relint_of sum tsum <= 1 /\
+  (let r := relint_of sum tsum in
+   (if b then Rmin kcini kk else Rmin kp kk) <= fkc_of b kcini kp kk r <= (if b then Rmax kcini kk else Rmax kp kk)) /\
+  (0 <= kcini -> 0 <= kp -> 0 <= kk -> 0 <= fkc_of b kcini kp kk (relint_of sum tsum)) /\
+  (sum <= tsum -> 0 <= kcini -> 0 <= kk -> 0 <= fkc_pre kcini kk sum tsum).
+Proof.
+  exact (fun b kcini kp kk sum tsum Hs Ht =>
+           conj (relint_range sum tsum Hs Ht)
+             (conj (fkc_between b kcini kp kk _ (relint_range sum tsum Hs Ht))
+               (conj (fkc_nonneg b kcini kp kk _ (relint_range sum tsum Hs Ht))
+                     (fun Hl => fkc_pre_nonneg kcini kk sum tsum (conj Hs Hl) Ht)))).
+Qed.
+
 (* N supply terms (crop.go:662-699), until round 9 mirrored in the harness and handed to the uptake model as oracle values: the mass
    flow with the transpiration stream is >= 0 in every layer (TP, C1 >= 0, WG > 0), the diffusion coefficient is >= 0, the diffusive
    supply has the sign of (N concentration of the soil solution - 14 mg/l) - towards the root above the threshold, away from it
@@ -163,3 +182,4 @@ Print Assumptions C09_root_distribution.
 Print Assumptions C09_dead_root_n.
 Print Assumptions C09_supply_terms.
 Print Assumptions C09_pool_inputs.
+Print Assumptions C09_crop_coefficient.
